@@ -20,6 +20,19 @@ open JinjaV.Lex
 
 -- code points are `Nat` (a Python `str` may hold lone surrogates, a Lean `Char` cannot)
 
+-- the regexes the hand scanners transcribe ---------------------------------------------------------------------
+-- (re.VERBOSE layout removed; pinned to the source on every run by Props/C14Regex.lean over Gen/LiteralRegex.lean)
+
+/-- `integer_re`, re.IGNORECASE | re.ASCII (so `\\d` is `[0-9]`, as `Char.isDigit`; /repo e06a1f7) — transcribed by `Lex.matchInt` (`matchPrefInt` x3, `matchDecInt`) -/
+def scannedIntegerRe : String := "(0b(_?[0-1])+|0o(_?[0-7])+|0x(_?[\\da-f])+|[1-9](_?\\d)*|0(_?0)*)"
+/-- `float_re`, re.IGNORECASE | re.ASCII — transcribed by `Lex.matchFloat` (`digitRun`, `matchFrac`, `matchExpo`, `prev`) -/
+def scannedFloatRe : String := "(?<!\\.)(\\d+_)*\\d+((\\.(\\d+_)*\\d+)?e[+\\-]?(\\d+_)*\\d+|\\.(\\d+_)*\\d+)"
+/-- `string_re`, re.S — transcribed by `Lex.matchString` / `strBody` -/
+def scannedStringRe : String := "('([^'\\\\]*(?:\\\\.[^'\\\\]*)*)'|\"([^\"\\\\]*(?:\\\\.[^\"\\\\]*)*)\")"
+def scannedIntegerFlags : List String := ["ASCII", "IGNORECASE"]
+def scannedFloatFlags : List String := ["ASCII", "IGNORECASE"]
+def scannedStringFlags : List String := ["DOTALL"]
+
 -- integers ----------------------------------------------------------------------------------------------
 
 /-- `value_str.replace("_", "")` -/
@@ -197,6 +210,13 @@ def decodeFrom : DState → List Nat → Except DErr (List Nat)
       | .ok v => .ok (out ++ v)
 
 def decodeEscapes (s : List Nat) : Except DErr (List Nat) := decodeFrom .plain s
+
+/-- no backslash in escape position is directly followed by a non-ASCII code point (the shape of finding F13:
+    `backslashreplace` would turn that code point into an escape of its own) -/
+def f13Free : List Nat → Bool
+  | [] => true
+  | 92 :: c :: r => decide (c < 128) && f13Free r
+  | _ :: r => f13Free r
 
 /-- what `wrap` does with the text between the quotes (lexer.py:652-656) -/
 def unescapeBody (body : List Nat) : Except DErr (List Nat) :=
